@@ -206,11 +206,18 @@ def squeeth_world(kind="eq", frozen_bar=8, n=10, with_osqth=True):
 
 
 # ---------------------------------------------------------------------------------------------------------
-def deribit_world(frozen_bar=1):
+def deribit_world(frozen_bar=1, cut_from=None):
     from . import deribit as db
 
-    data = _raw("deribit.raw", db.std_frame(3))
-    prices = db.price_frame(data)
+    if cut_from:
+        # the history is the first three hours of a LONGER download, cut with .loc (the frame's index still lists the later hours among its unused
+        # level values), and the price table covers the whole download
+        longer = db.std_frame(cut_from)
+        data = _raw("deribit.raw", longer.loc[:longer.index.get_level_values(0).unique()[2]])
+        prices = db.price_frame(longer)
+    else:
+        data = _raw("deribit.raw", db.std_frame(3))
+        prices = db.price_frame(data)
     index = data.index.get_level_values(0).unique()
 
     def build():
